@@ -39,6 +39,7 @@ FLOORS = {"C17.R5": 4, "C17.R1": 1, "C17.R2": 7, "C17.R3": 1, "C17.R4": 1}
 def run(chk):
     prog = chk.prog
     chk.call(r1_descriptor, chk)
+    chk.call(r1_driver_settings, chk)
     rl = prog.func(f"{RUN}:run_local")
     chk.analysed(rl)
     chk.call(r2_runner, chk, rl)
@@ -161,6 +162,70 @@ def r1_descriptor(chk):
                     f"`{attr}` still prepares its jobs with {norm(shadow[0][2])}") if shadow else "")
 
 
+def r1_driver_settings(chk):
+    """"reflects that driver instance's executable": what DriverBase.__init__ stores is the caller's `executable` when one is given,
+    the class default only otherwise.  The assignments to self.executable that precede the lookup on the search path are tabulated
+    for (given / not given) x (class default present)."""
+    from ..truth import Unknown, evaluate
+
+    prog = chk.prog
+    init = prog.func("molli.pipeline.driver:DriverBase.__init__")
+    chk.analysed(init)
+    key = f"{init.key}:explicit-executable-wins"
+    stores = []
+    for s in init.node.body:
+        if isinstance(s, ast.Assign) and norm(s.targets[0]) == "self.executable":
+            stores.append(s)
+        elif isinstance(s, ast.If) and "default_executable" in norm(s.test):
+            stores += [x for x in s.body if isinstance(x, ast.Assign) and norm(x.targets[0]) == "self.executable"]
+        elif isinstance(s, ast.If):
+            break   # the search-path step
+    chk.require(stores, f"{init.key}: self.executable is never assigned")
+    bad = None
+    for given in ("given", None):
+        cur = None
+        try:
+            for s in stores:
+                def lookup(n, cur=cur, given=given):
+                    t = norm(n)
+                    if t == "executable":
+                        return given
+                    if t == "self.executable":
+                        return cur
+                    if t == "self.default_executable" or (isinstance(n, ast.Call) and call_name(n) == "getattr" and len(n.args) >= 2 and norm(n.args[1]) == "'default_executable'"):
+                        return "default"
+                    return NotImplemented
+                cur = evaluate(s.value, lookup)
+        except Unknown as u:
+            raise AnalysisError(f"{init.key}: `{short(s.value, 50)}` cannot be tabulated: {u}")
+        want = given or "default"
+        if cur != want:
+            bad = (given, cur, s)
+            break
+    chk.decide(bad is None, "C17.R1", key, init.where(stores[0]), "self.executable = the given executable, else the class default",
+               (f"with executable={bad[0]!r} and a class default, DriverBase.__init__ stores {bad[1]!r} (`{short(bad[2], 50)}`): "
+                + ("the caller's executable is ignored in favour of the class default" if bad[0] else "the class default is not used when none is given")) if bad else "")
+
+
+def _is_failure_test(t):
+    """true for every non-zero return code - a command killed by a signal reports a negative one - and false for 0 (tabulated)"""
+    from ..truth import Unknown, evaluate
+
+    if not any(isinstance(x, ast.Attribute) and x.attr == "returncode" for x in ast.walk(t)):
+        return False
+    try:
+        vals = {}
+        for rc in (0, 1, 2, 255, -9, -15):
+            def lookup(n, rc=rc):
+                if isinstance(n, ast.Attribute) and n.attr == "returncode":
+                    return rc
+                return NotImplemented
+            vals[rc] = bool(evaluate(t, lookup))
+    except Unknown:
+        return False
+    return vals[0] is False and all(v for k, v in vals.items() if k != 0)
+
+
 def r2_runner(chk, rl):
     src = rl.node
     asg = assignments(src)
@@ -195,11 +260,33 @@ def r2_runner(chk, rl):
                f"{envname} = os.environ.copy() (+ job.envars)", f"the child environment `{envname}` is {ev}: not a copy of os.environ (the runner's own environment is modified or ignored)")
     chk.decide(any("job.envars" in norm(s) for s in walk_no_nested(src) if isinstance(s, (ast.AugAssign, ast.Assign, ast.Expr)) and envname and envname in norm(s)), "C17.R2",
                f"{rl.key}:env-overrides-applied", rl.where(), "job.envars are merged into the child environment", "job.envars never reach the child environment")
+    # ... and win over what the runner inherited: in `a | b`, `{**a, **b}`, `dict(a, **b)`, `a.update(b)`, `a |= b` the right-hand side wins
+    loses = None
+    for s in walk_no_nested(src):
+        if not (envname and isinstance(s, (ast.Assign, ast.AugAssign, ast.Expr)) and "job.envars" in norm(s) and envname in norm(s)):
+            continue
+        v = s.value
+        if isinstance(s, ast.Assign) and isinstance(v, ast.BinOp) and isinstance(v.op, ast.BitOr):
+            if "job.envars" in norm(v.left) and "job.envars" not in norm(v.right):
+                loses = s
+        elif isinstance(s, ast.Assign) and isinstance(v, ast.Dict) and None in v.keys:
+            order = [norm(x) for k_, x in zip(v.keys, v.values) if k_ is None]
+            ji = [i for i, x in enumerate(order) if "job.envars" in x]
+            oi = [i for i, x in enumerate(order) if "environ" in x and "job.envars" not in x]
+            if ji and oi and max(oi) > min(ji):
+                loses = s
+        elif isinstance(s, ast.Assign) and isinstance(v, ast.Call) and call_name(v) == "dict" and v.args and "job.envars" in norm(v.args[0]) and any(k_.arg is None and "environ" in norm(k_.value) for k_ in v.keywords):
+            loses = s
+        elif isinstance(s, ast.Expr) and isinstance(v, ast.Call) and isinstance(v.func, ast.Attribute) and v.func.attr == "setdefault":
+            loses = s
+    chk.decide(loses is None, "C17.R2", f"{rl.key}:env-overrides-win", rl.where(loses) if loses is not None else rl.where(), "job.envars take precedence over the inherited environment",
+               f"`{short(loses, 60) if loses is not None else ''}` lets the inherited environment win over the job's variables: an override of a variable that is already exported "
+               "(OMP_NUM_THREADS, PATH) has no effect")
     # stop at first failure: an `if <non-zero return code>:` directly in the loop body, after the run sites, that records the position and breaks
     ok = False
     where = l
     for st in l.body:
-        if isinstance(st, ast.If) and norm(st.test) in ("proc.returncode != 0", "proc.returncode", "proc.returncode > 0", "not proc.returncode == 0", "proc.returncode != 0 and True"):
+        if isinstance(st, ast.If) and _is_failure_test(st.test):
             has_break = any(isinstance(x, ast.Break) for x in st.body)
             has_fail = any(isinstance(x, ast.Assign) and norm(x.targets[0]) == "fail" for x in st.body)
             after_runs = all(c.lineno < st.lineno for c in runs)
